@@ -295,21 +295,25 @@ fn owner_write_region(e: &mut crate::exec::Exec, sig: usize, site: &'static str)
     let cur = e.current;
     let Some(r) = e.mon.regions.iter().find(|r| r.live && r.sig.0 == sig).cloned() else { return };
     let vc = e.tasks[cur].vc;
-    let addrs: Vec<usize> = e.mon.locs.keys().copied().filter(|a| r.contains(*a)).collect();
-    let mut bad: Option<(&'static str, usize, &'static str)> = None;
-    for a in addrs {
-        let l = &e.mon.locs[&a];
+    // collect every unordered access, then report the one with the smallest (site, kind): the choice must
+    // not depend on hash-map iteration order (addresses differ from process to process)
+    let mut bad: Vec<(&'static str, &'static str, usize)> = Vec::new();
+    for (a, l) in e.mon.locs.iter() {
+        if !r.contains(*a) {
+            continue;
+        }
         let wt = l.w_task as usize;
         if wt != cur && l.w_epoch > vc.0[wt] {
-            bad = Some((l.w_site, wt, "write-write"));
+            bad.push((l.w_site, "write-write", wt));
         }
         for u in 0..MAXT {
             if u != cur && l.reads[u] > vc.0[u] {
-                bad = Some((l.r_sites[u], u, "read-write"));
+                bad.push((l.r_sites[u], "read-write", u));
             }
         }
     }
-    if let Some((s, t, k)) = bad {
+    bad.sort();
+    if let Some((s, k, t)) = bad.first().copied() {
         race(e, k, s, t, site);
     }
 }
